@@ -596,6 +596,20 @@ impl<'a, 'e, 'ast> Visit<'ast> for Rewriter<'a, 'e> {
                 }
             }
         }
+        // R15: OPT.as_ref().map(|x| BODY)  ->  (match OPT.as_ref() { Some(x) => Some(BODY), None => None })
+        //      (the definition of Option::map; if the receiver were not an Option the result would not type-check)
+        else if name == "map" && m.args.len() == 1 && Self::is_method(&m.receiver, "as_ref", 0).is_some() {
+            if let syn::Expr::Closure(c) = &m.args[0] {
+                if c.inputs.len() == 1 {
+                    if let syn::Pat::Ident(pi) = &c.inputs[0] {
+                        let pieces = vec![Self::lit("(match "), self.sub(m.receiver.span()), Self::lit(&format!(" {{ Some({}) => Some(", pi.ident)),
+                                          self.sub(c.body.span()), Self::lit("), None => None })")];
+                        self.ed.replace(a, b, pieces, "R15");
+                        self.fire("R15");
+                    }
+                }
+            }
+        }
         // R14: (0..N).map(|_| C).collect()  ->  shim_fill_vec(N, C)
         else if name == "collect" && m.args.is_empty() {
             if let Some((inner, margs)) = Self::is_method(&m.receiver, "map", 1) {
